@@ -1,6 +1,6 @@
 ------------------------------ MODULE MC_C15obj ------------------------------
 (* C15, objects: bounded instance of obj/CertObj.  One behaviour:                *)
-(*   Pick(scenario) -> Create -> Parse -> CheckSignature | SwapIssuerKey(how)     *)
+(*   Pick(scenario) -> Create -> Parse -> CheckSignature | SwapIssuerKey(how, kt) *)
 (*                                     | Tamper(region, class, mask)              *)
 (* A scenario is (object kind, template, signer key type, subject key type, mode). *)
 (* Templates come from a generator of field-presence patterns: the each-choice     *)
@@ -68,8 +68,11 @@ CsrPlain      == [subject |-> "cn", san |-> {}, extra |-> "none"]
 CrlTemplates  == [number : {"small", "long19", "long20"}, entries : {"none", "one", "three"}, reason : {"zero", "set"}, next : {"utc", "gen"}, extra : {"none", "one"}]
 CrlRich       == [number |-> "long20", entries |-> "three", reason |-> "set", next |-> "gen", extra |-> "one"]
 CrlPlain      == [number |-> "small", entries |-> "none", reason |-> "zero", next |-> "utc", extra |-> "none"]
-CfcaTemplates == [subject : {"cn", "full", "utf8"}, tmp : {"with", "without"}]
-CfcaRich      == [subject |-> "full", tmp |-> "with"]
+CrlOldTemplates == [entries : {"none", "one", "three"}, next : {"utc", "gen"}]
+CrlOldRich    == [entries |-> "three", next |-> "gen"]
+CfcaTemplates == [subject : {"cn", "full", "utf8"}, tmp : {"with", "without"}, pass : {"printable", "utf8"}]
+CfcaRich      == [subject |-> "full", tmp |-> "with", pass |-> "utf8"]
+CsrRspTemplates == [nsign : {"one", "two"}, leaf : {"minimal", "rich"}, enc : {"with", "without"}]   \* sign chain [leaf] / [leaf, CA]; SM2 only
 CfcaSigners(t) == IF t.tmp = "with" THEN {"sm2", "rsa"} ELSE {"sm2", "ecdsa", "rsa", "ed25519"}     \* the documented domain of the CFCA format
 
 Sc(kind, tmpl, s, k, mode) == [kind |-> kind, tmpl |-> tmpl, signer |-> s, subj |-> k, mode |-> mode]
@@ -84,7 +87,9 @@ FieldScenarios ==
    ELSE {})
   \cup (IF "csr" \in KindsOn THEN {Sc("csr", t, s, s, "fields") : t \in CsrTemplates, s \in Signers} ELSE {})
   \cup (IF "crl" \in KindsOn THEN {Sc("crl", t, s, s, "fields") : t \in CrlTemplates, s \in Signers} ELSE {})
+  \cup (IF "crlold" \in KindsOn THEN {Sc("crlold", t, s, s, "fields") : t \in CrlOldTemplates, s \in Signers} ELSE {})
   \cup (IF "cfca" \in KindsOn THEN UNION {{Sc("cfca", t, s, s, "fields") : s \in CfcaSigners(t) \cap Signers} : t \in CfcaTemplates} ELSE {})
+ContainerScenarios == IF "csrrsp" \in KindsOn /\ "sm2" \in Signers THEN {Sc("csrrsp", t, "sm2", "sm2", "container") : t \in CsrRspTemplates} ELSE {}
 TamperScenarios ==
   (IF "cert" \in KindsOn THEN {Sc("cert", t, s, NextType(s), "tamper") : s \in Signers,
                                   t \in (IF "rich" \in TamperRich THEN {CertRich} ELSE {}) \cup (IF "plain" \in TamperRich THEN {CertBase} ELSE {})} ELSE {})
@@ -92,8 +97,9 @@ TamperScenarios ==
                                      t \in (IF "rich" \in TamperRich THEN {CsrRich} ELSE {}) \cup (IF "plain" \in TamperRich THEN {CsrPlain} ELSE {})} ELSE {})
   \cup (IF "crl" \in KindsOn THEN {Sc("crl", t, s, s, "tamper") : s \in Signers,
                                      t \in (IF "rich" \in TamperRich THEN {CrlRich} ELSE {}) \cup (IF "plain" \in TamperRich THEN {CrlPlain} ELSE {})} ELSE {})
+  \cup (IF "crlold" \in KindsOn THEN {Sc("crlold", CrlOldRich, s, s, "tamper") : s \in Signers} ELSE {})
   \cup (IF "cfca" \in KindsOn THEN {Sc("cfca", CfcaRich, s, s, "tamper") : s \in {"sm2", "rsa"} \cap Signers} ELSE {})
-Scenarios == (IF "fields" \in Modes THEN FieldScenarios ELSE {}) \cup (IF "tamper" \in Modes THEN TamperScenarios ELSE {})
+Scenarios == (IF "fields" \in Modes THEN FieldScenarios \cup ContainerScenarios ELSE {}) \cup (IF "tamper" \in Modes THEN TamperScenarios ELSE {})
 
 (* data the template classes stand for, where the specification fixes the value: serial / CRL numbers *)
 SerialBytes(cls, salt) ==
@@ -114,20 +120,21 @@ Create == /\ C!Create(sc.kind, sc.tmpl, sc.signer, sc.subj)
 Parse == /\ C!Parse
          /\ hist' = Append(hist, [op |-> "parse", expect |-> C!Fields(o), number |-> Hx!FromBytes(NumberOf(sc))])
          /\ UNCHANGED sc
+         /\ (IF sc.mode = "container" THEN Emit(hist') ELSE TRUE)
 Check == /\ sc.mode = "fields" /\ C!CheckSignature
          /\ hist' = Append(hist, [op |-> "checksig", allowed |-> out'])
          /\ UNCHANGED sc /\ Emit(hist')
-Swap(how) == /\ sc.mode = "fields" /\ C!SwapIssuerKey(how)
-             /\ hist' = Append(hist, [op |-> "swapkey", how |-> how, allowed |-> out'])
-             /\ UNCHANGED sc /\ Emit(hist')
+Swap(how, kt) == /\ sc.mode = "fields" /\ C!SwapIssuerKey(how, kt)
+                 /\ hist' = Append(hist, [op |-> "swapkey", how |-> how, kt |-> kt, allowed |-> out'])
+                 /\ UNCHANGED sc /\ Emit(hist')
 Tamper(region, cls, mask) ==
   /\ sc.mode = "tamper" /\ cls < Modulus /\ mask \in (IF region = "tbs" THEN TbsMasks ELSE SigMasks)
   /\ C!Tamper(region, cls, mask)
   /\ hist' = Append(hist, [op |-> "tamper", region |-> region, cls |-> cls, mod |-> Modulus, mask |-> mask, allowed |-> out'])
   /\ UNCHANGED sc /\ Emit(hist')
 Next == \/ Create \/ Parse \/ Check
-        \/ \E how \in {"sameType", "otherType", "subjectKey"} : Swap(how)
-        \/ \E region \in {"tbs", "sig"}, cls \in 0..63, mask \in 1..255 : Tamper(region, cls, mask)
+        \/ \E how \in {"other", "subject"}, kt \in C!KeyTypes : Swap(how, kt)
+        \/ \E region \in {"tbs", "sig"}, cls \in 0..(Modulus - 1), mask \in TbsMasks \cup SigMasks : Tamper(region, cls, mask)
 Spec == Init /\ [][Next]_vars
 
 CreateParses == C!CreateParses
